@@ -380,7 +380,10 @@ func overlappingSubscribers(sn *node, publishID uintptr, p *publishes) {
 		// message is read under the read lock, or granted QoS, options and identifier of two
 		// different subscriptions end up together
 		sub.RLock()
-		if s, ok := (*p)[id]; ok {
+		if sub.p.Ops.NL() && id == publishID {
+			// a No-Local subscription takes no part in the copy of its own session's publish, whether
+			// another subscription of the session has been met before it or not
+		} else if s, ok := (*p)[id]; ok {
 			if sub.p.ID > 0 {
 				s[0].ids = append(s[0].ids, sub.p.ID)
 			}
@@ -388,12 +391,8 @@ func overlappingSubscribers(sn *node, publishID uintptr, p *publishes) {
 			if s[0].qos < sub.p.Granted {
 				s[0].qos = sub.p.Granted
 			}
-		} else {
-			if !sub.p.Ops.NL() || id != publishID {
-				if pe := sub.acquire(); pe != nil {
-					(*p)[id] = append((*p)[id], pe)
-				}
-			}
+		} else if pe := sub.acquire(); pe != nil {
+			(*p)[id] = append((*p)[id], pe)
 		}
 		sub.RUnlock()
 
